@@ -100,6 +100,13 @@ class Inputs:
         self.T4s = np.einsum("ir,jr,kr,lr->ijkl", r.rand(3, 2), r.rand(2, 2), r.rand(3, 2), r.rand(2, 2)) + 0.01 * r.rand(3, 2, 3, 2)  # order 4
         self.T1 = r.rand(4, 1, 5)                                           # a mode of size 1
         self.vecs = [r.randn(4), r.randn(3)]
+        # size regime: one long mode (>= 256) and low rank
+        # (130, 2, 2): the unfoldings of modes 1, 2 are 2 x 260, i.e. symeig_svd works on a 260 x 260 Gram matrix (the Gram
+        # matrix has the size of the LARGER dimension; a 280 x 5 x 4 tensor would mean 1120 x 1120 and seconds per call)
+        self.Tlong = np.einsum("ir,jr,kr->ijk", r.rand(130, 2), r.rand(2, 2), r.rand(2, 2)) + 0.05 * r.rand(130, 2, 2)
+        self.Mlong = r.randn(300, 6)
+        self.Mwide = r.randn(6, 300)
+        self.slong = [np.abs(r.randn(n, 4)) for n in (280, 260, 270)]
 
 
 _INPUTS = None
@@ -117,7 +124,8 @@ def inputs():
 # on the data he holds.  A routine that overwrites its inputs therefore shows up as "same seed, same arguments,
 # different result" (it is a C15 violation too; the `inp` field of the events says whether the arguments changed).
 _ARGS = {}
-_ALT = [False]      # the "alt" entry class of a trace: the SAME routine on the float32 version of the SAME arguments
+_ALT = [False]      # the "alt" entry class of a trace: the SAME routine on a twin of the SAME arguments --
+                    # False (the arguments themselves) | "float32" | "complex128" (per trace: case["altkind"])
 
 
 def new_trace_arguments():
@@ -127,7 +135,11 @@ def new_trace_arguments():
 
 def _version(a, alt):
     def one(x):
-        return x.astype(np.float32) if alt and x.dtype.kind == "f" else x.copy()
+        if alt == "float32" and x.dtype.kind == "f":
+            return x.astype(np.float32)
+        if alt == "complex128" and x.dtype.kind == "f":       # a genuinely complex tensor of the same shape
+            return x.astype(np.complex128) + 0.5j * np.roll(x, 1, axis=0)
+        return x.copy()
     return [one(x) for x in a] if isinstance(a, list) else one(a)
 
 
@@ -141,7 +153,7 @@ def c(a):
 def arguments_digest():
     """constant while every argument object still holds its pristine content; otherwise identifies what they hold now"""
     changed = []
-    for k in sorted(_ARGS):
+    for k in sorted(_ARGS, key=str):
         _, pristine, mine = _ARGS[k]
         if _flat(pristine, []) != _flat(mine, []):
             changed.append(_flat(mine, []))
@@ -359,6 +371,28 @@ def _entries():
             e["obj"]["other"] = lambda m: m.fit_transform(c(I.pslices) if "Parafac2" in type(m).__name__ else c(I.T4s))
             e["obj"]["failing"] = lambda m: m.fit_transform("not a tensor")
 
+    # ---- size regime: a long mode, low rank, every SVD method the entry accepts.  These are SVD-initialised, i.e. they make
+    # no random choice with the two deterministic solvers: seeded and unseeded calls alike must repeat bit for bit.
+    for m in ("truncated_svd", "symeig_svd", "randomized_svd"):
+        add("svd_interface", "method=%s,300x6" % m, lambda rs, m=m: svd_interface(c(I.Mlong), method=m, n_eigenvecs=2, random_state=rs),
+            lambda m=m: svd_interface(c(I.Mlong), method=m if m != "randomized_svd" else "symeig_svd", n_eigenvecs=2), slow=True)
+        add("parafac", "init=svd,svd=%s,130x2x2(Gram 260)" % m, lambda rs, m=m: D.parafac(c(I.Tlong), 2, n_iter_max=2, init="svd", svd=m, tol=0, random_state=rs),
+            lambda m=m: D.parafac(c(I.Tlong), 2, n_iter_max=2, init="svd", svd=m if m != "randomized_svd" else "symeig_svd", tol=0), slow=True)
+        add("tucker", "init=svd,svd=%s,130x2x2(Gram 260)" % m, lambda rs, m=m: D.tucker(c(I.Tlong), [2, 2, 2], n_iter_max=2, init="svd", svd=m, tol=0, random_state=rs),
+            lambda m=m: D.tucker(c(I.Tlong), [2, 2, 2], n_iter_max=2, init="svd", svd=m if m != "randomized_svd" else "symeig_svd", tol=0), slow=True)
+    add("svd_interface", "method=symeig_svd,6x300", lambda rs: svd_interface(c(I.Mwide), method="symeig_svd", n_eigenvecs=2, random_state=rs),
+        lambda: svd_interface(c(I.Mwide), method="symeig_svd", n_eigenvecs=2), slow=True)
+    add("non_negative_parafac", "init=svd,svd=symeig_svd,130x2x2(Gram 260)", lambda rs: D.non_negative_parafac(np.abs(c(I.Tlong)), 2, n_iter_max=2, init="svd", svd="symeig_svd", tol=0, random_state=rs),
+        lambda: D.non_negative_parafac(np.abs(c(I.Tlong)), 2, n_iter_max=2, init="svd", svd="symeig_svd", tol=0), slow=True)
+    add("constrained_parafac", "init=svd,svd=symeig_svd,130x2x2(Gram 260)", lambda rs: D.constrained_parafac(c(I.Tlong), 2, n_iter_max=2, n_iter_max_inner=2, init="svd", svd="symeig_svd", non_negative=True, random_state=rs),
+        lambda: D.constrained_parafac(c(I.Tlong), 2, n_iter_max=2, n_iter_max_inner=2, init="svd", svd="symeig_svd", non_negative=True), slow=True)
+    add("partial_tucker", "init=svd,svd=symeig_svd,130x2x2(Gram 260)", lambda rs: D.partial_tucker(c(I.Tlong), [2, 2], modes=[0, 2], n_iter_max=2, init="svd", svd="symeig_svd", tol=0, random_state=rs),
+        lambda: D.partial_tucker(c(I.Tlong), [2, 2], modes=[0, 2], n_iter_max=2, init="svd", svd="symeig_svd", tol=0), slow=True)
+    add("parafac2", "init=random,svd=symeig_svd,slices of 260-280 rows", lambda rs: D.parafac2(c(I.slong), 2, n_iter_max=2, init="random", svd="symeig_svd", tol=0, linesearch=False, random_state=rs),
+        lambda: D.parafac2(c(I.slong), 2, n_iter_max=2, init="svd", svd="symeig_svd", tol=0, linesearch=False), slow=True)
+    add("tensor_ring_als", "130x2x2(Gram 260)", lambda rs: D.tensor_ring_als(c(I.Tlong), [2, 2, 2, 2], n_iter_max=2, tol=0, random_state=rs),
+        lambda: D.tensor_ring(c(I.Tlong), [1, 2, 2, 1]), slow=True)
+
     # ---- shape regimes: order 2, order 4, a mode of size 1, rank above a dimension, vectors instead of matrices
     add("parafac", "init=random,order=2", lambda rs: D.parafac(c(I.T2), 2, n_iter_max=3, init="random", tol=0, random_state=rs), det_parafac, slow=True)
     add("parafac", "init=random,order=4", lambda rs: D.parafac(c(I.T4s), 2, n_iter_max=3, init="random", tol=0, random_state=rs), det_parafac, slow=True)
@@ -505,7 +539,7 @@ def run_trace(case):
                 raise ValueError(op["op"])
             if op["e"] == "alt" and op["op"] in ("FitObj", "CloneFit"):
                 raise ValueError("objects are only used with the primary entry")
-            _ALT[0] = op["e"] == "alt"
+            _ALT[0] = case.get("altkind", "float32") if op["e"] == "alt" else False
             try:
                 ev["res"] = intern("R" + result_digest(call()))
             except Exception as ex:
